@@ -319,15 +319,35 @@ end ins
 /-- **Alias resolution is total and unambiguous**: every name in the alias table resolves to exactly one
 canonical criterion — the key of the list it appears in — and every canonical name is its own alias. -/
 theorem alias_resolution_total :
-    (∀ e ∈ aliasTable, ∀ a ∈ e.2, resolveNames aliasTable [a] = [e.1]) ∧
+    (∀ e ∈ aliasTable, ∀ a ∈ e.2, resolve [a] = [e.1]) ∧
     (∀ e ∈ aliasTable, e.1 ∈ e.2) ∧ (allAliases aliasTable).Nodup := by
+  decide +kernel
+
+/-- **The k-th tolerance belongs to the k-th criterion the user named.**  For every list of known names the
+resolved list is the user's list mapped through the alias table IN THE USER'S ORDER (same length, k-th entry =
+canonical criterion of the k-th name), so zipping it with the user's tolerance list pairs every criterion
+with the tolerance given for it.  (Breaks if the two resolution loops are nested table-first.) -/
+theorem resolved_in_user_order (names : List String) (h : ∀ x ∈ names, x ∈ allAliases aliasTable) :
+    (resolve names).map some = names.map (canonOf aliasTable) ∧ (resolve names).length = names.length := by
+  have key : ∀ x ∈ allAliases aliasTable,
+      (aliasTable.filter fun e => e.2.contains x).map (·.1) = (canonOf aliasTable x).toList ∧
+        (canonOf aliasTable x).isSome = true := by decide +kernel
+  have h1 : (resolve names).map some = names.map (canonOf aliasTable) :=
+    resolveNames_user_order aliasTable names (fun x hx => key x (h x hx))
+  refine ⟨h1, ?_⟩
+  have := congrArg List.length h1
+  simpa using this
+
+/-- the order matters: resolving table-first would hand `ess` the tolerance given for `ratio` -/
+theorem resolved_in_user_order_fails_without :
+    resolveNamesTableMajor aliasTable ["ess", "ratio"] = ["ratio", "ess"] ∧ resolve ["ess", "ratio"] = ["ess", "ratio"] := by
   decide +kernel
 
 /-- a single name outside the table is rejected (`ValueError: Unknown stopping criterion`), whatever
 the tolerances and `check_criteria` -/
 theorem unknown_rejected (x : String) (hx : x ∉ allAliases aliasTable) (nTol : Nat) (check : String) :
     configureStopping [x] nTol check = .error .unknownCriterion := by
-  have : resolveNames aliasTable [x] = [] :=
+  have : resolve [x] = [] :=
     resolveNames_unknown aliasTable [x] (by intro y hy; simp at hy; subst hy; exact hx)
   simp [configureStopping, this]
 
@@ -335,16 +355,17 @@ theorem unknown_rejected (x : String) (hx : x ∉ allAliases aliasTable) (nTol :
 differs from the number of tolerances; `check_criteria` must be `any` or `all` -/
 theorem configure_errors (names : List String) (nTol : Nat) (check : String) :
     ((∀ x ∈ names, x ∉ allAliases aliasTable) → configureStopping names nTol check = .error .unknownCriterion) ∧
-    (resolveNames aliasTable names ≠ [] → (resolveNames aliasTable names).length ≠ nTol →
+    (resolve names ≠ [] → (resolve names).length ≠ nTol →
         configureStopping names nTol check = .error .lengthMismatch) ∧
-    (resolveNames aliasTable names ≠ [] → (resolveNames aliasTable names).length = nTol →
+    (resolve names ≠ [] → (resolve names).length = nTol →
         check ≠ "any" → check ≠ "all" → configureStopping names nTol check = .error .badCheck) ∧
-    (resolveNames aliasTable names ≠ [] → (resolveNames aliasTable names).length = nTol →
+    (resolve names ≠ [] → (resolve names).length = nTol →
         (check = "any" ∨ check = "all") →
-        configureStopping names nTol check = .ok (resolveNames aliasTable names, check == "any")) := by
+        configureStopping names nTol check = .ok (resolve names, check == "any")) := by
   refine ⟨?_, ?_, ?_, ?_⟩
   · intro h
-    simp [configureStopping, resolveNames_unknown aliasTable names h]
+    have : resolve names = [] := resolveNames_unknown aliasTable names h
+    simp [configureStopping, this]
   · intro h1 h2
     simp [configureStopping, h1, h2]
   · intro h1 h2 h3 h4
@@ -508,6 +529,7 @@ example : errSq [(1 : Rat), 2, 3] = 1 / 3 ∧ relErrSq [(1 : Rat), 2, 3] = 1 / 1
 example : essCode [(1 : Rat), 2, 3] = 18 / 7 ∧ essKish [(1 : Rat), 2, 3] = 18 / 7 := by
   constructor <;> decide +kernel
 
+example : ∀ x ∈ ["fractional_error", "log_evidence", "ratio_all"], x ∈ allAliases aliasTable := by decide +kernel
 example : (configureStopping ["log_evidence", "ratio_all"] 2 "all").toOption = some (["log_dZ", "ratio"], false) := by
   decide +kernel
 
